@@ -97,6 +97,7 @@ class Registry:
         self.spec_natives = {}
         self.model_classes = {}
         self.views = {}
+        self.view_setters = {}
         dirs = contract_dirs or [os.path.join(VERIF_ROOT, "contracts")]
         for d in dirs:
             for p in sorted(glob.glob(os.path.join(d, "**", "*.py"), recursive=True)):
@@ -161,9 +162,11 @@ class Registry:
                         opts = {k.arg: _lit(k.value) for k in d.keywords}
                         funcs = {f.name: f for f in st.body if isinstance(f, ast.FunctionDef)}
                         c = Contract(target, sm, opts, funcs, st.lineno, assumed)
-                        if target in self.contracts:
-                            raise ValueError(f"duplicate contract for {target}")
-                        self.contracts[target] = c
+                        key = target + ("@" + opts["variant"] if opts.get("variant") else "")
+                        if key in self.contracts:
+                            raise ValueError(f"duplicate contract for {key}")
+                        c.key = key
+                        self.contracts[key] = c
 
     def declare_ghost(self, name, argkinds, retkind):
         """Uninterpreted specification function over data values."""
@@ -172,6 +175,10 @@ class Registry:
             terms = []
             for a, kd in zip(args, argkinds):
                 like = vals.fresh(kd, "g")
+                if isinstance(a, VRef):
+                    ncell = it.heap()[a.addr]
+                    if ncell.native is not None and hasattr(ncell.native, "as_opaque"):
+                        a = ncell.native.as_opaque(it, a)
                 a = it.deref(a)
                 if isinstance(a, VOpt) and not isinstance(like, VOpt):
                     a = a.val
